@@ -81,6 +81,23 @@ func ruleR03_2(c *Check) {
 		if _, ok := exc[root]; ok {
 			continue
 		}
+		// outside initialisation the counter only moves forward: a timestamp handed out once is never
+		// handed out again (a "returned" timestamp would be reused by the next commit while the old
+		// one is already marked done: readers at that timestamp do not wait for the new commit)
+		fwd := false
+		switch st := o.Node.(type) {
+		case *ast.IncDecStmt:
+			fwd = st.Tok == token.INC
+		case *ast.AssignStmt:
+			if st.Tok == token.ADD_ASSIGN && len(st.Rhs) == 1 {
+				v, isC := w.constInt(st.Rhs[0])
+				fwd = isC && v > 0
+			} else if st.Tok == token.ASSIGN && len(st.Rhs) == 1 {
+				a, b, okl := w.linear(o.SiteFn, st.Rhs[0], w.isField(next), 0)
+				fwd = okl && a == 1 && b > 0
+			}
+		}
+		r.Check(fwd, o.SiteFn, k.key("nextTxnTs only moves forward", w, o.Node), o.Node, "oracle.nextTxnTs is assigned something other than an increment: a commit timestamp can be handed out twice")
 		var trail []string
 		ok := o.SiteFn.HeldDeep(o.Node, mu, 2, 2, &trail)
 		r.Check(ok, o.SiteFn, k.key("nextTxnTs stored under oracle mutex", w, o.Node), o.Node, joinTrail(trail))
